@@ -335,6 +335,7 @@ DYN_FILES = {
 }
 DYN_MODULES = ['c06a.utils', 'c06b.utils', 'c06a.other']
 DYN_TARGETS = {'c06a.utils': ['make'], 'c06b.utils': ['make'], 'c06a.other': ['build', 'K']}
+DYN_REF_SCOPES = ['', 's1', 's2/t', 's1']
 DYN_FORMS = ['import {m}', 'import {m} as {a}', 'from {p} import {l}', 'from {p} import {l} as {a}']
 
 
@@ -374,6 +375,23 @@ def check_dyn(case):
       else:
         how = 'late'
       model[(m, attr, param)] = (value, how)
+    # reference values (scoped or not, evaluated or not) on c06a.utils.make, written through the
+    # file's own import names; what they deliver is observed by calling, before and after
+    ref_specs = {}
+    for param, si, tmi, ti, evaluate in case.get('refs', []):
+      tm = DYN_MODULES[1 + tmi % 2]
+      for need in ('c06a.utils', tm):
+        if need not in spelled:
+          lines.insert(1, f'import {need}')
+          spelled[need] = bound[need] = need
+      attr = DYN_TARGETS[tm][ti % len(DYN_TARGETS[tm])]
+      scope = DYN_REF_SCOPES[si % len(DYN_REF_SCOPES)]
+      if scope:
+        lines.append(f"{scope}/{spelled[tm]}.{attr}.x = 'in:{scope}'")
+      lines.append(f"{spelled['c06a.utils']}.make.{param} = "
+                   f"@{scope + '/' if scope else ''}{spelled[tm]}.{attr}{'()' if evaluate else ''}")
+      model.pop(('c06a.utils', 'make', param), None)
+      ref_specs[param] = (scope, tm, attr, evaluate)
     gin.parse_config('\n'.join(lines) + '\n')
     for (m, attr, param), (value, how) in model.items():
       if how == 'late':
@@ -396,6 +414,39 @@ def check_dyn(case):
 
     want = {k: v for k, (v, _) in model.items()}
     require(observe() == want, 'dyn-bindings-before', lambda: f'{observe()} vs {want}')
+
+    def norm(v):
+      if isinstance(v, tuple):
+        return tuple(norm(x) for x in v)
+      if type(v).__name__ == 'K':
+        return ('K', v.x)
+      if callable(v):
+        return ('callable', norm(v()))
+      return v
+
+    def delivered():
+      make = importlib.import_module('c06a.utils').make
+      return norm(gin.get_configurable(make)())
+
+    exp_delivered = None
+    if ref_specs:
+      labels.add('dyn:reference-values')
+      exp = ['a.utils']
+      for param in ('x', 'y'):
+        if param in ref_specs:
+          scope, tm, attr, evaluate = ref_specs[param]
+          if scope:
+            labels.add('dyn:scoped-reference-value')
+          tx = 'in:' + scope if scope else model.get((tm, attr, 'x'), (None,))[0]
+          ty = model.get((tm, attr, 'y'), (None,))[0]
+          res = ('K', tx) if attr == 'K' else (tm[3:], tx, ty)
+          exp.append(res if evaluate else ('callable', res))
+        else:
+          exp.append(model.get(('c06a.utils', 'make', param), (None,))[0])
+      exp_delivered = norm(tuple(exp))
+      got_d = delivered()
+      require(got_d == exp_delivered, 'dyn-references-before',
+              lambda: f'make() gave {got_d}, expected {exp_delivered}\n' + '\n'.join(lines))
     s1 = gin.config_str()
     gin.clear_config()
     try:
@@ -405,6 +456,11 @@ def check_dyn(case):
     got = observe()
     require(got == want, 'round-trip-value',
             lambda: f'after re-parse {got}, expected {want}\n--- config_str:\n{s1}')
+    if ref_specs:
+      got_d = delivered()
+      require(got_d == exp_delivered, 'round-trip-reference',
+              lambda: f'after re-parse make() gives {got_d}, before {exp_delivered}\n'
+                      f'--- config_str:\n{s1}')
     s2 = gin.config_str()
     require(s2 == s1, 'round-trip-text', lambda: f'--- first:\n{s1}\n--- second:\n{s2}')
     leafs = [bound_m.rsplit('.', 1)[-1] for bound_m in {m for (m, _, _) in model}]
@@ -666,7 +722,10 @@ def _dyn_case(draw):
                 st.integers(0, 9) | st.sampled_from(['v', [1, 2]]),
                 st.sampled_from(['text', 'late'])).map(list),
       min_size=1, max_size=5, unique_by=lambda b: (b[0] % 3, b[1], b[2])))
-  return {'kind': 'dynamic', 'imports': imports, 'bindings': bindings}
+  refs = draw(st.lists(st.tuples(st.sampled_from(['x', 'y']), st.integers(0, 3), st.integers(0, 1),
+                                 st.integers(0, 1), st.booleans()).map(list),
+                       max_size=2, unique_by=lambda r: r[0]))
+  return {'kind': 'dynamic', 'imports': imports, 'bindings': bindings, 'refs': refs}
 
 
 def strategy():
